@@ -110,6 +110,11 @@ impl BlindSignatureContextTrait for BlindSignatureContext {
             }
         }
         points.push(G1Projective::GENERATOR);
+        // one response per generator that is not covered by an issuer-known claim;
+        // sum_of_products silently stops at the shorter slice
+        if self.proofs.len() != points.len() {
+            return Ok(false);
+        }
         points.push(self.commitment);
 
         let mut scalars = self.proofs.clone();
